@@ -18,7 +18,7 @@ MODULE = "checks.c06"
 MS, ME, MD = 0.0, 3.0, 1.0
 SCEN = {"A": "sm1", "B": "sm1", "C": "sm2", "D": "sm1", "F": "sm2"}
 OPS = ["run", "sess_const", "step_const", "sess_points", "step_points", "reset", "open_step", "register_late",
-       "multi_const", "multi_points", "rest_dt", "rest_start", "rest_points"]
+       "multi_const", "multi_points", "rest_dt", "rest_start", "rest_points", "sess_observe"]
 
 
 def histories(tier):
@@ -27,6 +27,8 @@ def histories(tier):
     alphabet += [(o, x) for o in ("multi_const", "multi_points") for x in ("A", "B", "D")]
     # the REST /run endpoint of a server built on this bptk object: settings without constants (run specs, points)
     alphabet += [(o, x) for o in ("rest_dt", "rest_start", "rest_points") for x in ("A", "B")]
+    # a session on ONE scenario with the session's start/dt left to be derived: its steps must follow that scenario's own run specs
+    alphabet += [("sess_observe", x) for x in ("A", "B", "D")]
     out = [[a] for a in alphabet]
     out += [[a, b] for a in alphabet for b in alphabet]
     if tier == "thorough":
@@ -139,6 +141,18 @@ class World(object):
             import json as _json
             self.client.post("/run", data=_json.dumps({"scenario_managers": [mgr], "scenarios": [x], "equations": scen.EQS,
                                                                "settings": {mgr: {x: st}}}), content_type="application/json")
+        elif op == "sess_observe":
+            b.begin_session(scenarios=[x], scenario_managers=[mgr], equations=scen.EQS)
+            steps = [b.run_step(), b.run_step(), b.run_step()]
+            b.end_session()
+            self.open = None
+            got = scen.merge_steps([scen.from_step(r, mgr, x) for r in steps if not (isinstance(r, dict) and r.get("msg"))])
+            cs, ps = self.settings[x]
+            st0, en0, dt0 = self.specs.get(x, (MS, ME, MD))
+            want = scen.fresh_results(st0, en0, dt0, cs, ps)
+            times = scen.grid(st0, en0, dt0)[:3]
+            want = {e: {t: tv[t] for t in times} for e, tv in want.items()}
+            self.in_session["%s in a session of its own" % x] = (got, want)
         elif op in ("multi_const", "multi_points"):
             names = [y for y, m in self.managers.items() if m == mgr]
             b.begin_session(scenarios=names, scenario_managers=[mgr], equations=scen.EQS, starttime=MS, dt=MD)
@@ -286,6 +300,8 @@ def signature(hist, info):
         return "raised:%s" % "/".join(o for o, x in hist)
     if i >= len(hist):
         return "leak:%s->second-bptk-object" % (hist[-1][0] if hist else "none")
+    if "session of its own" in who:
+        return "leak:%s->own-session-clock" % (hist[i - 1][0] if i > 0 else "initial")
     op, x = hist[i]
     M = dict(SCEN, E="sm1")
     rel = "self" if who == x else ("base" if who == "base" else ("sibling" if M.get(who) == M.get(x) else "other-manager"))
